@@ -187,8 +187,11 @@ def e3(ctx, F):
         add_ok = a["op"] == "+=" and sym(a["r"]) == ("index", ("var", "past_scores"), idx)
         blocks = [x for x in slot_writes[0][1] if x.get("k") == "Block"]
         same_block = bool(blocks) and any(x is a for x, _ in hir.walk(blocks[-1]))
-        ok = val_ok and add_ok and same_block
-        found.update({"slot = score of the piece stored on that square": val_ok, "score += that slot": add_ok, "same arm": same_block})
+        # the slot is read after it was written (an add in front of the write adds the slot's old content: 0)
+        after_write = hir.order_key(a) > hir.order_key(w)
+        ok = val_ok and add_ok and same_block and after_write
+        found.update({"slot = score of the piece stored on that square": val_ok, "score += that slot": add_ok, "same arm": same_block,
+                      "added after the slot was written": after_write})
     ctx.check("C16.E3", "importer-adds-each-piece-once", ok, fn=fn["path"], file=fn["file"],
               line=hir.line(slot_writes[0][0]) if slot_writes else fn["span"][0],
               what="the importer must cache piece.score(square) in past_scores[square] and add exactly that to the total, once per piece",
